@@ -208,7 +208,7 @@ def c13(chk):
         cfg = dict(x.split("=") for x in mc.split("|")[0].split()[1:])
         stepb, maxb, P = int(cfg["step"]), int(cfg["maxb"]), int(cfg["P"])
         addrs = {int(e.split(":")[0]): [a for a in e.split(":")[2].split(",") if a] for e in meta["known"]}
-        fails, last_dial = {}, {}
+        fails, last_dial, overdue = {}, {}, {}
         # scripted availability: up[j] at the instant of tick i (changes happen half a period earlier)
         upnow = {}
         changes = {}
@@ -242,11 +242,22 @@ def c13(chk):
                                          dict(case=sc[:2500], tick=i, dials=str(per_tick)[:600]))
                         ok_case = False
                 last_dial[p] = i
+                overdue.pop(p, None)
                 # outcome by the script: the attempt succeeds iff it went to the peer's own address while the peer is up
                 if got == str(p) and is_up(p, i * P):
                     fails[p] = 0
                 else:
                     fails[p] = k + 1
+                    # the failure is handled within the connect timeout (400 ms); the next attempt is due at the
+                    # first check after min(max, k*step) more, so certainly within one further period
+                    overdue[p] = i * P + 400 + min(maxb, (k + 1) * stepb) + P
+            if not meta["cap"]:
+                for p, due in list(overdue.items()):
+                    if i * P > due and aff.get(p) == "high":
+                        chk.monitor_fail("peer %d: no attempt by t=%d ms although its %d consecutive failure(s) (last attempt at %d ms) allow one from %d ms on" % (p, i * P, fails[p], last_dial[p] * P, due - P),
+                                         dict(case=sc[:2500], tick=i, dials=str(per_tick)[:600]))
+                        ok_case = False
+                        overdue.pop(p)
         if not ok_case:
             continue
         chk.nontriv(sc)
